@@ -185,8 +185,13 @@ Fixpoint nth_snap_before (l : list (option snap)) (j : nat) (acc : option snap) 
   | None :: r, S j' => nth_snap_before r j' acc
   end.
 
+(* only trees that the property protects: an instance on it is listed, or its removal is pending *)
+Definition protected (a : snap) (i : nat) : bool :=
+  lookup_b (sn_pending a) i || existsb (fun '(k, c) => (tree_of k =? i) && (c =? 1)) (sn_inst a).
+
 Definition same_trees (a b : snap) : bool :=
-  forallb (fun '(i, c) => match lookup_nat (sn_trees b) i with Some c' => c' =? c | None => false end) (sn_trees a).
+  forallb (fun '(i, c) => negb (protected a i) ||
+                          match lookup_nat (sn_trees b) i with Some c' => c' =? c | None => false end) (sn_trees a).
 
 Definition stale_ok (snaps : list (option snap)) (j : nat) : bool :=
   match nth_snap_before snaps j None, nth_error snaps j with
